@@ -400,6 +400,10 @@ func replay(raw json.RawMessage) (bool, string) {
 	case "fsopt":
 		cs = fsOptCase(n[0], n[1], n[2], n[3], n[4])
 		gi = n[5]
+	case "bopt":
+		cs, _ = boundThenOptionalCase(n[0])
+		gs = bqlm.BoundAliasGraphs()
+		gi = n[1]
 	case "fsopt3":
 		cs = fsOpt3Case(n[0], n[1], n[2], n[3], n[4], n[5])
 		gi = n[6]
@@ -413,7 +417,7 @@ func replay(raw json.RawMessage) (bool, string) {
 
 func main() {
 	r := common.Start("C10", "model_checking")
-	for _, k := range []string{"pair", "mod", "triple", "fsopt", "fsopt3"} {
+	for _, k := range []string{"pair", "mod", "triple", "fsopt", "fsopt3", "bopt"} {
 		r.Replayer(k, replay)
 	}
 	r.MaybeReplay()
@@ -421,6 +425,7 @@ func main() {
 	// the small passes first: under load the time budget must not be spent before they ran
 	runFullySpecified(r, st)
 	runFullySpecified3(r, st)
+	runBoundThenOptional(r, st)
 	runTriples(r, st)
 	runModifiers(r, st)
 	runPairs(r, st)
